@@ -833,6 +833,53 @@ FlowCases(u) ==
   { FlowUaw(t[1], t[2]) : t \in { x \in UawWriters \X UawOps : Keep(x[1] + 3 * x[2]) \/ Op(x[2]) \in {DIV, MOD} } }
 
 (***************************************************************************)
+(* Family "pairs" (C01, C03, C04): every ordered pair (X ; Y) of            *)
+(* instruction kinds, Y consuming what X produced, with all registers and  *)
+(* the touched packet bytes observed afterwards - straight, and with Y     *)
+(* also a jump target (the path through X, and the path that skips X).     *)
+(* What an engine remembers from translating X must not leak into Y.       *)
+(*   r9 packet pointer ; r6 = A (X's destination) ; r7 = B (X's source) ;  *)
+(*   r8 = C (Y's destination, Y's source is r6) ; r0..r5 known values.     *)
+(***************************************************************************)
+IPairKinds == 1..18
+\* the instruction(s) of kind k with destination d and source s
+IPairInsn(k, d, s) ==
+  CASE k = 1  -> << I(7, d, 0, 0, 13) >>              \* add64 d, 13
+    [] k = 2  -> << I(15, d, s, 0, 0) >>              \* add64 d, s
+    [] k = 3  -> << I(188, d, s, 0, 0) >>             \* mov32 d, s
+    [] k = 4  -> << I(111, d, s, 0, 0) >>             \* lsh64 d, s
+    [] k = 5  -> << I(63, d, s, 0, 0) >>              \* div64 d, s
+    [] k = 6  -> << I(156, d, s, 0, 0) >>             \* mod32 d, s
+    [] k = 7  -> << I(39, d, 0, 0, -3) >>             \* mul64 d, -3
+    [] k = 8  -> << I(135, d, 0, 0, 0) >>             \* neg64 d
+    [] k = 9  -> << I(220, d, 0, 0, 16) >>            \* be16 d
+    [] k = 10 -> << I(97, d, 9, 8, 0) >>              \* ldxw d, [r9+8]
+    [] k = 11 -> << I(123, 9, s, 72, 0) >>            \* stxdw [r9+72], s
+    [] k = 12 -> << I(114, 9, 0, 80, 90) >>           \* stb [r9+80], 0x5a
+    [] k = 13 -> << I(219, 9, s, 88, 0) >>            \* xadd dw [r9+88], s
+    [] k = 14 -> << I(40, 0, 0, 0, 2) >>              \* ldabsh 2          (writes r0)
+    [] k = 15 -> << I(80, 0, 1, 0, 1) >>              \* ldindb r1, 1      (writes r0; r1 = 1)
+    [] k = 16 -> LddwSlots(d, V64[16])                \* lddw d
+    [] k = 17 -> << I(CALL, 0, 0, 0, 2) >>            \* call helper 2     (writes r0, clobbers r1-r5)
+    [] k = 18 -> << I(45, d, s, 1, 0), Mov64I(0, 119) >>   \* jgt d, s, +1 ; mov r0, 0x77
+IPairProg(kx, ky, shape, A, Bv) ==
+  LET x == IPairInsn(kx, 6, 7)
+      y == IPairInsn(ky, IF ky \in {1, 7, 8, 9} THEN 6 ELSE 8, 6)
+      setup == << Mov64R(9, 1) >> \o LddwSlots(6, A) \o LddwSlots(7, Bv) \o LddwSlots(8, FrameVal(8))
+               \o << Mov64I(0, 100), Mov64I(1, 1), Mov64I(2, 2), Mov64I(3, 3), Mov64I(4, 4), Mov64I(5, 5) >>
+      \* shape 1: X ; Y    shape 2: jeq r5, 6, skip-X (not taken) ; X ; Y    shape 3: jeq r5, 5, skip-X (taken) ; X ; Y
+      gate == IF shape = 1 THEN <<>> ELSE << JeqI(5, IF shape = 2 THEN 6 ELSE 5, Len(x)) >>
+      reset == IF kx = 17 \/ ky = 17 THEN << Mov64I(1, 1), Mov64I(2, 2), Mov64I(3, 3), Mov64I(4, 4), Mov64I(5, 5) >> ELSE <<>>
+      save == [r \in 1..9 |-> StxI(8, 9, r - 1, 8 * (r - 1))]            \* r0..r8 -> packet bytes 0..71
+  IN Flat(setup \o gate \o x \o y \o reset \o save \o << Mov64I(0, 0), ExitI >>)
+IPairCaseOf(t) ==
+  [WithPkt([BaseCase EXCEPT !.vm = "raw"], FrameLen) EXCEPT
+     !.id = <<"pr", t[1], t[2], t[3], t[4], 0, 0>>, !.fam = "pairs", !.helpers = {2},
+     !.prog = IPairProg(t[1], t[2], t[3], V64[<<14, 18>>[t[4]]], V64[<<4, 1>>[t[4]]])]
+PairsCases(u) ==
+  { IPairCaseOf(t) : t \in { x \in IPairKinds \X IPairKinds \X {1, 2, 3} \X {1, 2} : Keep(x[1] + 3 * x[2] + 7 * x[3] + 11 * x[4]) } }
+
+(***************************************************************************)
 (* Family "helpers" (C08): helper calls with boundary ids and arguments,   *)
 (* at call depth 0..3 and 7, 8 (the deepest allowed), one to three calls    *)
 (* per program, with exact, larger                                         *)
